@@ -274,7 +274,7 @@ func K6(variant int) *Entry {
 func K7() *Entry {
 	choice := M("Choice",
 		F("Label"),
-		F("Text", In(0)), F("Number", Sc(ir.Int64), In(0)), F("Flag", Sc(ir.Bool), In(0)), F("Kind", EnumT("Mode"), In(0)), F("Raw", Sc(ir.Bytes), In(0)),
+		F("Text", In(0)), F("Number", Sc(ir.Int64), In(0), JSON("number_value")), F("Flag", Sc(ir.Bool), In(0), JSON("flag_set")), F("Kind", EnumT("Mode"), In(0)), F("Raw", Sc(ir.Bytes), In(0)),
 		F("Ratio", Sc(ir.Double), In(0)),
 		F("Sub", MsgT("Payload"), In(1)), F("Other", MsgT("Payload2"), In(1)), F("Nothing", MsgT("Void"), In(1)), F("Word", In(1)),
 		F("at_time", TS(), In(2)), F("for_span", Dur(), In(2)), F("plain_text", In(2)),
